@@ -17,6 +17,10 @@ pub struct Case {
   pub walk_roots: Vec<u16>,
   /// indices choosing modules whose dependencies are skipped
   pub skip: Vec<u16>,
+  /// walk a graph of generated registry packages with fast-check modules
+  /// instead of the world's graph
+  #[serde(default)]
+  pub fc: Option<crate::props::c09::Case>,
 }
 
 #[derive(Debug)]
@@ -40,17 +44,19 @@ pub fn spec() -> PropSpec<Case> {
         build_case_strategy(p),
         proptest::collection::vec(any::<u16>(), 1..=3),
         proptest::collection::vec(any::<u16>(), 0..=2),
+        proptest::option::weighted(0.25, crate::props::c09::case_strategy(tier)),
       )
-        .prop_map(|(build, walk_roots, skip)| Case {
+        .prop_map(|(build, walk_roots, skip, fc)| Case {
           build,
           walk_roots,
           skip,
+          fc,
         })
         .boxed()
     },
     check,
     cases: |tier| tier.pick(30_000, 600_000),
-    rule: "built graphs from generated worlds; each is walked under all 36 combinations of kind x follow_dynamic x check_js(true/false/custom) x prefer_fast_check_graph, from a drawn root subset (roots, non-roots, redirect sources, unknown specifiers) with a drawn skip set; non-trivial = the graph has >= 3 entries, at least one type resolution and at least one of: dynamic dependency, redirect, module with a types dependency; distinct = distinct case JSON",
+    rule: "built graphs from generated worlds and (a quarter of the cases) graphs of generated registry packages on which fast check has run; each is walked under all 36 combinations of kind x follow_dynamic x check_js(true/false/custom) x prefer_fast_check_graph, from a drawn root subset (roots, non-roots, redirect sources, unknown specifiers) with a drawn skip set; non-trivial = the graph has >= 3 entries, at least one type resolution and at least one of: dynamic dependency, redirect, module with a types dependency; distinct = distinct case JSON",
     assumptions: &[
       "walk roots are pairwise distinct (callers pass graph.roots or a set)",
       "reference model: engine/src/refwalk.rs, written from WalkOptions rustdoc and the C15 statement; errors compared as multisets of rendered text",
@@ -64,7 +70,16 @@ pub fn spec() -> PropSpec<Case> {
 pub fn check(case: &Case, _tier: Tier) -> Outcome {
   let mut o = Outcome::default();
   let b = &case.build;
-  let (graph, _) = build_simple(&b.world, &b.roots, &b.imports, &b.opts);
+  let graph = match &case.fc {
+    Some(fc) => {
+      let p = crate::props::c09::prepare(fc, None);
+      if p.graph.modules().any(|m| m.js().map(|j| j.fast_check_module().is_some()).unwrap_or(false)) {
+        o.label("graph-with-fast-check-modules");
+      }
+      p.graph
+    }
+    None => build_simple(&b.world, &b.roots, &b.imports, &b.opts).0,
+  };
   check_graph(&graph, &case.walk_roots, &case.skip, &mut o, "C15");
   let n_entries = graph.specifiers().count();
   let has_type = graph.modules().any(|m| {
